@@ -379,6 +379,48 @@ Definition url_split (u : url) : parsed_url :=
 Definition url_parse_split (raw : string) : option parsed_url :=
   match url_parse raw with Ok u => Some (url_split u) | Err _ => None end.
 
+(* ================================================================ the common class of endpoints (theorem C14_endpoint_kept) *)
+(* every '%' is followed by two hexadecimal digits *)
+Fixpoint pct_ok (s : string) : bool :=
+  match s with
+  | EmptyString => true
+  | String c r =>
+      if is_ch 37 c then match r with String h1 (String h2 r') => is_hex h1 && is_hex h2 && pct_ok r' | _ => false end
+      else pct_ok r
+  end.
+
+(* RFC 3986: unreserved; sub-delims; pchar and '/' and '%' *)
+Definition unreserved (c : ascii) : bool := is_alnum c || ch_in [45; 46; 95; 126]%N c.                      (* - . _ ~ *)
+Definition sub_delim (c : ascii) : bool := ch_in [33; 36; 38; 39; 40; 41; 42; 43; 44; 59; 61]%N c.          (* ! $ & ' ( ) * + , ; = *)
+Definition path_byte (c : ascii) : bool := unreserved c || sub_delim c || ch_in [58; 64; 47; 37]%N c.       (* : @ / % *)
+Definition query_byte (c : ascii) : bool := negb (is_ctl c) && negb (is_ch 35 c).                           (* no control byte, no # *)
+
+Fixpoint strip_prefix (p s : string) : option string :=
+  match p with
+  | EmptyString => Some s
+  | String a p' => match s with String b s' => if Ascii.eqb a b then strip_prefix p' s' else None | EmptyString => None end
+  end.
+
+(* absolute http / https URL, lower-case scheme; host = a registered name or IPv4 address written with unreserved
+   characters only (no escapes, no userinfo, no IPv6 literal), optional decimal port; path empty or starting with '/', made of
+   unreserved / sub-delim / ':' / '@' / '/' characters and well-formed %XX escapes; optional query of any bytes but control
+   characters and '#'; no fragment *)
+Definition common_rest (r : string) : bool :=
+  let '(hp, q) := match cut_byte 63 r with Some (a, b) => (a, Some b) | None => (r, None) end in
+  let '(authority, path) := break_slash hp in
+  let '(host, port) := match cut_byte 58 authority with Some (h, p) => (h, Some p) | None => (authority, None) end in
+  nonempty host && str_all unreserved host && match port with Some p => str_all is_digit p | None => true end
+  && str_all path_byte path && pct_ok path && match q with Some q => str_all query_byte q | None => true end.
+
+Definition common_endpoint (u : string) : bool :=
+  match strip_prefix "https://" u with
+  | Some r => common_rest r
+  | None => match strip_prefix "http://" u with Some r => common_rest r | None => false end
+  end.
+
+(* the endpoint without its query: the text before the first '?' *)
+Definition endpoint_base (u : string) : string := match cut_byte 63 u with Some (a, _) => a | None => u end.
+
 (* ================================================================ observables for the correspondence check *)
 Definition url_err_val (e : url_err) : val :=
   match e with
@@ -402,8 +444,10 @@ Definition url_val (u : url) : val :=
       (* String() after the assignment the redirect builders make *)
       VS (url_string (set_raw_query "SAMLRequest=x" u))].
 
+(* [is the string in the common class?; what url.Parse answers] *)
 Definition run_url_parse (raw : string) : val :=
-  match url_parse_u raw with UOk u => VC "Ok" [url_val u] | UErr e => VC "Err" [url_err_val e] end.
+  VL [VB (common_endpoint raw);
+      match url_parse_u raw with UOk u => VC "Ok" [url_val u] | UErr e => VC "Err" [url_err_val e] end].
 
 (* the redirect flows of Redirect.run_redirect with url.Parse modelled: the endpoint goes in as configured *)
 Definition run_redirect_url (flow : string) (cfg : redirect_config) (endpoint : string)
